@@ -123,6 +123,21 @@ def run(chk, tier):
             switches += tr["switches"]
             if tr["pools"] != 1:
                 raise core.MachineryFailure("the scheduler's pool was not engaged (pools=%s)" % tr["pools"])
+        # bounded preemption (P = 2): one or two forced context switches placed systematically over the whole run
+        calib, _, _ = pr.evaluate("pool", P=2, sched_seed=1, force_at=())
+        nsteps = max(1, calib["steps"])
+        slots = 16 if tier == "quick" else 64
+        for j in range(slots):
+            k1 = int((j + rnd.random()) * nsteps / slots) + 1
+            force = {k1} if j % 2 == 0 else {k1, k1 + rnd.randint(1, max(2, nsteps // slots))}
+            tr, outs, _ = pr.evaluate("pool", P=2, sched_seed=j, force_at=force)
+            tid += 1
+            tr.update(tid=tid, prop=OWN, sameasserial=outs is not None and pl.same_bits(outs, serial))
+            traces.append(tr)
+            meta[tid] = {"cube": kind, "aggregates": names, "P": 2, "tasks": pr.T, "forced_switch_at_steps": sorted(force),
+                         "of_steps": nsteps, "case": case.describe(), "exc": getattr(pr, "last_exc", None)}
+            steps += tr["steps"]
+            switches += tr["switches"]
         if tier == "thorough" and q % 4 == 0:
             old = sys.getswitchinterval()
             sys.setswitchinterval(1e-6)
